@@ -7,6 +7,7 @@ import (
 	"os"
 	"os/exec"
 	"path/filepath"
+	"strconv"
 	"strings"
 	"time"
 
@@ -343,7 +344,8 @@ func runC07(cfg Config, r *Result) {
 		defer cleanup()
 	}
 	r.Rule = "inputs as for C06 (hand-written layouts, every evy program of /repo plain and decorated, generated programs plain / decorated / white-space widened), " +
-		"plus top-level skeletons drawn from {stmt, comment, blank, func, on}^n (n <= 9) rendered as programs; only accepted inputs count; " +
+		"plus top-level skeletons drawn from {stmt, comment, blank, func, on}^n (n <= 9) rendered as programs; plus byte-level variants (line-end conventions, " +
+		"stray white-space / control / invalid bytes, BOM, final-newline count) of formatter outputs and sources through the binary (stdin, file, txtar member, fmt, fmt -w); only accepted inputs count; " +
 		"non-trivial = at least 6 words and a block, a comment or a multi-line literal; distinct = distinct source text"
 	c := &c07Ctx{model: model, r: r, bin: bin, maxBin: cfg.N(24, 500), cfg: cfg}
 	if cfg.Replay != "" {
@@ -357,6 +359,13 @@ func runC07(cfg Config, r *Result) {
 					c07Check(c, fmtInput{s, "replay"})
 					return
 				case map[string]any:
+					if q, ok := s["bytes_quoted"].(string); ok {
+						if b, err := strconv.Unquote(q); err == nil {
+							label, _ := s["variant"].(string)
+							c07CheckBytes(c, byteVariant{label, b}, 3)
+							return
+						}
+					}
 					if t, ok := s["source"].(string); ok {
 						c07Check(c, fmtInput{t, "replay"})
 						return
@@ -372,6 +381,9 @@ func runC07(cfg Config, r *Result) {
 	// the two text predicates of the theorems (Format.shape_lines / ends_one_nl) against the harness's own
 	// implementation, on formatter outputs damaged in the ways the property forbids
 	c07ShapeCross(c, cfg.N(300, 5000))
+	// byte-level variants (line-end conventions, stray control bytes, BOM, final-newline count ...) of formatter outputs and
+	// of sources through the binary: stdin, file argument, txtar member, plain fmt, fmt -w (c07bytes.go)
+	c07ByteStream(c, cfg.N(25, 500))
 	// skeleton programs: every way blank lines, comments, statements and func/on definitions meet at top level
 	nSkel := cfg.N(500, 8000)
 	for i := 0; i < nSkel; i++ {
